@@ -16,7 +16,7 @@ func init() {
 		ID:          "C09",
 		Explanation: "(a) every per-variable table of the solver (discovered from the constructor's allocations and from indexing by Var/Lit) is grown, by the right number of elements per new variable, by every function that raises the variable count, the count is raised last and views built from a table are rebuilt after its growth; (b) in AppendClause a literal's variable is announced before the literal is used; (c) Unsat is absorbing: code reachable from AppendClause only ever stores Unsat into the status and Solve returns at once on Unsat; (d) AppendClause keeps its lower/upper weight bounds by the three-valued rule (true: both, false: none, unbound: upper only); (e) every forced literal of an added constraint is bound and propagated; (f) the published model is re-allocated from the current variable set on every Sat answer (R1.5).",
 		NotDecided:  "equivalence of incremental solving with solving from scratch (depends on the search history and on the simplification arithmetic of AppendClause).",
-		Rules:       []ruleFn{ruleR9_1, ruleR9_2, ruleR9_3, ruleR9_4, ruleR9_5, ruleR9_6, ruleR9_7, ruleR9_8, ruleR9_9, ruleR9_10, ruleR9_11, ruleR9_12, ruleR9_13, ruleR9_14, ruleR1_5},
+		Rules:       []ruleFn{ruleR9_1, ruleR9_2, ruleR9_3, ruleR9_4, ruleR9_5, ruleR9_6, ruleR9_7, ruleR9_8, ruleR9_9, ruleR9_10, ruleR9_11, ruleR9_12, ruleR9_13, ruleR9_14, ruleR1_5, ruleR2_2},
 	})
 }
 
